@@ -144,6 +144,46 @@ def check_parse_sound(name, grammar, word, stats):
     return problems
 
 
+def check_after_prefix_request(name, word, stats):
+    """C04 over histories: a COMPLETE-mode request issued after a prefix-mode (INCOMPLETE) request for the same input on the
+    same grammar object must still yield only derivations of exactly that input"""
+    import itertools
+    from fandango.language.grammar import ParsingMode
+    g2, _ = family.load(name)
+    _, to = with_budget(lambda: list(itertools.islice(g2.parse_forest(word, mode=ParsingMode.INCOMPLETE), 20)))
+    if to:
+        stats["timeouts"] += 1
+        return []
+    return ["after a prefix-mode request for the same input: " + p for p in check_parse_sound(name, g2, word, stats)]
+
+
+def check_tree_input(name, grammar, word, stats):
+    """C04 for inputs given as a DerivationTree: the yielded trees derive exactly the serialisation of that tree"""
+    first, to = with_budget(lambda: next(iter(grammar.parse_forest(word)), None))
+    if to or first is None:
+        return []
+    res, to = with_budget(lambda: list(grammar.parse_forest(first)))
+    if to:
+        stats["timeouts"] += 1
+        return []
+    problems = []
+    want = serialise(first)
+    if not res:
+        problems.append("input given as a tree: the tree of a word of the language is not parsed back")
+    for t in res:
+        ok, why = valid(grammar, t)
+        if not ok:
+            problems.append(f"input given as a tree: yielded tree is not a derivation: {why}")
+        try:
+            s2 = serialise(t)
+        except Exception as e:
+            problems.append(f"input given as a tree: yielded tree cannot be serialised: {type(e).__name__}")
+            continue
+        if s2 != want:
+            problems.append(f"input given as a tree: serialisation {s2!r} differs from the input tree's {want!r}")
+    return problems
+
+
 def check_api_filter(name, word, stats):
     fan = family.fandango(name)
     res, timed_out = with_budget(lambda: list(fan.parse(word)))
@@ -200,6 +240,15 @@ def run_spec(pid, name, tier, rnd, stats, samples):
             stats["distinct"].add((name, repr(w)))
             for p in check_parse_sound(name, grammar, w, stats):
                 violations.append((name, w, p))
+        for w in (inside[:6] + outside[:6]):
+            stats["evaluations"] += 1
+            for p in check_after_prefix_request(name, w, stats):
+                violations.append((name, w, p))
+        if name not in family.GENERATOR_SPECS:
+            for w in inside[:8]:
+                stats["evaluations"] += 1
+                for p in check_tree_input(name, grammar, w, stats):
+                    violations.append((name, w, p))
         if name in family.CONSTRAINED_SPECS:
             for w in inside + outside[:20]:
                 stats["evaluations"] += 1
@@ -285,6 +334,8 @@ def replay(pid, name, word):
     grammar, _ = family.load(name)
     if pid == "C04":
         probs = check_parse_sound(name, grammar, word, stats)
+        probs += check_after_prefix_request(name, word, stats)
+        probs += check_tree_input(name, grammar, word, stats)
         if name in family.CONSTRAINED_SPECS:
             probs += check_api_filter(name, word, stats)
     else:
